@@ -18,10 +18,8 @@ theorem gen_settingValid_mfs (v : Int) :
   unfold NetVerif.Gen.C08.settingValid NetVerif.Gen.C08.settingMaxFrameSize NetVerif.Gen.C08.errCodeProtocol
     validMfs minMaxFrame maxMaxFrame
   by_cases h : 16384 ≤ v ∧ v ≤ 16777215
-  · have : ¬ (v < 16384 ∨ v > 1 * 16777216 - 1) := by omega
-    simp [h, this]
-  · have : (v < 16384 ∨ v > 1 * 16777216 - 1) := by omega
-    simp [h, this]
+  · simp [h]
+  · simp [h]
 
 /-- `Setting.Valid` on SETTINGS_INITIAL_WINDOW_SIZE (a uint32): FLOW_CONTROL_ERROR exactly above 2^31-1. -/
 theorem gen_settingValid_iw (v : Int) (h0 : 0 ≤ v) :
@@ -30,10 +28,8 @@ theorem gen_settingValid_iw (v : Int) (h0 : 0 ≤ v) :
   unfold NetVerif.Gen.C08.settingValid NetVerif.Gen.C08.settingInitialWindowSize NetVerif.Gen.C08.errCodeFlowControl
     validIw maxWindow
   by_cases h : v ≤ 2147483647
-  · have : ¬ (v > 1 * 2147483648 - 1) := by omega
-    simp [h, h0, this]
-  · have : (v > 1 * 2147483648 - 1) := by omega
-    simp [h, this]
+  · simp [h, h0]
+  · simp [h]
 
 /-- the `allowed` value of `Consume` as the model computes it -/
 def allowedOf (available limit maxFrame : Int) : Int :=
